@@ -1086,6 +1086,17 @@ class Engine:
             if attr == 'ordered':
                 return [(st, BoolV(view.ord_))]
             return [(st, BoundV(recv, attr))]
+        if isinstance(recv, NdArrV):
+            cell = st.heap[recv.oid]
+            if attr == 'ndim':
+                return [(st, IntV(1))]
+            if attr == 'size':
+                return [(st, IntV(cell['n']))]
+            if attr == 'dtype':
+                return [(st, OpaqueV('int-dtype'))]
+            return [(st, BoundV(recv, attr))]
+        if isinstance(recv, OpaqueV) and recv.what == 'int-dtype' and attr == 'kind':
+            return [(st, StrV('i'))]
         if isinstance(recv, ModuleV):
             return [(st, self.module_attr(recv, attr))]
         if isinstance(recv, (ListV, SymSeqV, TupleV, CellListV, BuiltinV, ClassV, ClosureV, FnV, ObjV,
@@ -1383,6 +1394,22 @@ class Engine:
         hm = self.ctx_hook('any_method', st, recv, name, args, kwargs)
         if hm is not None:
             return hm
+        if isinstance(recv, NdArrV) and name in ('min', 'max') and not args:
+            cell = st.heap[recv.oid]
+            n, f = cell['n'], cell['f']
+            res = []
+            for s2, empty in self.branch(st, n <= 0):
+                if empty:
+                    self.raise_(s2, self.new_exc(s2, 'ValueError'))
+                    continue
+                mval = smt.fresh('arr_' + name, smt.Int)
+                w = smt.fresh('arr_arg' + name, smt.Int)
+                j = z3.Int('_mmj')
+                s2.pc += [w >= 0, w < n, f(w) == mval,
+                          z3.ForAll([j], z3.Implies(z3.And(j >= 0, j < n), (f(j) >= mval) if name == 'min' else (f(j) <= mval)),
+                                    patterns=[f(j)])]
+                res.append((s2, IntV(mval)))
+            return res
         if isinstance(recv, RngV):
             h = self.ctx_hook('rng_method', st, recv, name, args, kwargs)
             if h is not None:
@@ -1589,6 +1616,8 @@ class Engine:
             return False
         if isinstance(v, ClassV):
             return cname in ('type', 'object')
+        if isinstance(v, NdArrV):
+            return cname == 'ndarray'
         return None
 
     def bi_isinstance(self, args, kwargs, st, node):
